@@ -223,6 +223,10 @@ func read_placeholder(rdr *tokenReader, placeholderValues *HashMap, ns EnvType) 
 	if tokenStruct == nil {
 		return nil, lisperror.NewLispError(errors.New("read_placeholder underflow"), &tokenStruct)
 	}
+	if placeholderValues == nil {
+		// no placeholder table: every placeholder reads as nil
+		return nil, nil
+	}
 	return placeholderValues.Val[tokenStruct.Value], nil
 }
 
